@@ -768,11 +768,12 @@ fn ridge_t<T: Num>(c: &mut Case, sc: &Scen) {
 fn lasso_t<T: Num>(c: &mut Case, sc: &Scen) {
     let alpha = c.rng.logu(1e-3, 1.0);
     let normalize = c.rng.bool(0.5);
-    sc.describe(c, "Lasso", json!({"alpha": alpha, "normalize": normalize}));
+    let max_iter = *c.rng.pick(&[1usize, 3, 300, 300]);
+    sc.describe(c, "Lasso", json!({"alpha": alpha, "normalize": normalize, "max_iter": max_iter}));
     let q: DM<T> = to_dense(&sc.q);
     let fit = |d: &Ds| {
         let (x, y) = dx::<T>(d);
-        Lasso::fit(&x, &y, LassoParameters::default().with_alpha(t(alpha)).with_normalize(normalize).with_max_iter(300)).map_err(es)
+        Lasso::fit(&x, &y, LassoParameters::default().with_alpha(t(alpha)).with_normalize(normalize).with_max_iter(max_iter)).map_err(es)
     };
     let outs = |m: &Lasso<T, DM<T>>| {
         let mut o = fv(&m.predict(&q).map_err(es)?);
@@ -787,11 +788,12 @@ fn enet_t<T: Num>(c: &mut Case, sc: &Scen) {
     let alpha = c.rng.logu(1e-3, 1.0);
     let l1 = c.rng.uni(0.1, 0.9);
     let normalize = c.rng.bool(0.5);
-    sc.describe(c, "ElasticNet", json!({"alpha": alpha, "l1_ratio": l1, "normalize": normalize}));
+    let max_iter = *c.rng.pick(&[1usize, 3, 300, 300]);
+    sc.describe(c, "ElasticNet", json!({"alpha": alpha, "l1_ratio": l1, "normalize": normalize, "max_iter": max_iter}));
     let q: DM<T> = to_dense(&sc.q);
     let fit = |d: &Ds| {
         let (x, y) = dx::<T>(d);
-        ElasticNet::fit(&x, &y, ElasticNetParameters::default().with_alpha(t(alpha)).with_l1_ratio(t(l1)).with_normalize(normalize).with_max_iter(300)).map_err(es)
+        ElasticNet::fit(&x, &y, ElasticNetParameters::default().with_alpha(t(alpha)).with_l1_ratio(t(l1)).with_normalize(normalize).with_max_iter(max_iter)).map_err(es)
     };
     let outs = |m: &ElasticNet<T, DM<T>>| {
         let mut o = fv(&m.predict(&q).map_err(es)?);
